@@ -179,7 +179,9 @@ class NeuralTS(RLAlgorithm):
         self.numel = sum(
             w.numel() for w in self.exp_layer.parameters() if w.requires_grad
         )
-        self.sigma_inv = torch.eye(self.numel).to(self.device) / self.lamb
+        self.sigma_inv = (
+            torch.eye(self.numel, dtype=torch.float64).to(self.device) / self.lamb
+        )
         self.theta_0 = torch.cat(
             [w.flatten() for w in self.exp_layer.parameters() if w.requires_grad]
         ).detach()
@@ -199,7 +201,9 @@ class NeuralTS(RLAlgorithm):
         obs = self.preprocess_observation(obs)
 
         mu = self.actor(obs)
-        g = torch.zeros((self.action_dim, self.numel)).to(self.device)
+        g = torch.zeros((self.action_dim, self.numel), dtype=self.sigma_inv.dtype).to(
+            self.device
+        )
         for k, fx in enumerate(mu):
             self.optimizer.zero_grad()
             fx.backward(retain_graph=True)
@@ -219,7 +223,7 @@ class NeuralTS(RLAlgorithm):
                     torch.matmul(
                         torch.matmul(g[:, None, :], self.sigma_inv), g[:, :, None]
                     )[:, 0, :]
-                ),
+                ).to(mu.dtype),
             )
 
         action_values = action_values.cpu().numpy()
